@@ -132,7 +132,22 @@ def fld(o, name):
     return getattr(o, name, ABSENT)
 
 
-HELPERS = dict(implies=implies, iff=iff, ite=ite, forall=forall, exists=exists, is_exc=is_exc, truthy=truthy,
+def APPEND_GROUP(acc, item):
+    if item is None:
+        return acc
+    return ('Compliances', (acc[1] if acc else []) + [item])
+
+
+def GROUPS(a, b):
+    return (a[1] if a else []) + (b[1] if b else [])
+
+
+def HAS_TYPE(x):
+    return True         # value types are checked symbolically only
+
+
+HELPERS = dict(APPEND_GROUP=APPEND_GROUP, GROUPS=GROUPS, HAS_TYPE=HAS_TYPE,
+               implies=implies, iff=iff, ite=ite, forall=forall, exists=exists, is_exc=is_exc, truthy=truthy,
                is_none=is_none, is_str=is_str, is_int=is_int, absent=absent, matches=matches, py_int=py_int,
                py_int_base=py_int_base, py_replace=py_replace, seq=seq, concat=concat, same=same, fld=fld)
 
@@ -252,6 +267,8 @@ def run_function_replay(R):
         return 20
     ns = dict(HELPERS)
     ns.update(inputs)
+    if isinstance(inputs.get('__names__'), dict):
+        ns.update(inputs['__names__'])
     for name, ex in R.get('let', {}).items():
         try:
             ns[name] = eval(ex, ns)
